@@ -179,7 +179,7 @@ Section Proofs.
   Variable pick : nat -> st -> option nat.
   Variable universe : list tx.   (* the transactions handed to the selection *)
 
-  Definition Inv (s : st) : Prop :=
+  Definition SelInv (s : st) : Prop :=
     (forall a, run_from (sess_nonce sess a) (nonces (sel_of a (selected s)))) /\
     (forall c, In c (cursors s) -> cursor_ok (selected s) c /\ sorted_rest c) /\
     NoDup (map csender (cursors s)) /\
@@ -229,7 +229,7 @@ Section Proofs.
   Lemma sum_gas_cons t l : sum_gas (t :: l) = gasLimit t + sum_gas l.
   Proof. reflexivity. Qed.
 
-  Lemma step_inv fuel s s' : Inv s -> step sess gasRequested maxNum pick fuel s = Some s' -> Inv s'.
+  Lemma step_inv fuel s s' : SelInv s -> step sess gasRequested maxNum pick fuel s = Some s' -> SelInv s'.
   Proof.
     intros (Hrun & Hcur & Hnd & Hgas & Hle & Hcnt & Hgd & Hcons & Hbal & (dropped & Hperm)) Hstep. unfold step in Hstep.
     destruct (pick fuel s) as [i|]; [|discriminate].
@@ -250,7 +250,7 @@ Section Proofs.
     destruct (maxNum <=? length (selected s))%nat eqn:Emax; [discriminate|].
     apply N.ltb_ge in Egas. apply Nat.leb_gt in Emax.
     destruct (skip_sender sess (consumed s) c) eqn:Ess.
-    { inversion Hstep; subst s'; clear Hstep. unfold Inv; simpl.
+    { inversion Hstep; subst s'; clear Hstep. unfold SelInv; simpl.
       split; [exact Hrun|]. split; [intros c' H; apply Hcur; auto|]. split; [exact Hnd1|].
       repeat (split; [assumption|]).
       exists (cursor_txs c ++ dropped). etransitivity; [exact Hperm|]. unfold all_txs; cbn [selected cursors].
@@ -260,7 +260,7 @@ Section Proofs.
     apply orb_false_elim in Ess. destruct Ess as (Eig & Emg).
     destruct (skip_tx sess c) eqn:Est.
     - (* transaction skipped: selection unchanged *)
-      destruct (advance c (latest c)) as [c'|] eqn:Eadv; inversion Hstep; subst s'; clear Hstep; unfold Inv; simpl.
+      destruct (advance c (latest c)) as [c'|] eqn:Eadv; inversion Hstep; subst s'; clear Hstep; unfold SelInv; simpl.
       + destruct (advance_ok (selected s) c (latest c) c' Hs Hrest Hlt Hsorted Hlat Eadv) as (Hok & Hso & Hcs & Htx).
         split; [exact Hrun|]. split.
         { intros c0 [<-|H]; [split; assumption|]. apply Hcur; auto. }
@@ -314,7 +314,7 @@ Section Proofs.
       assert (Hbal' : balance_walkb sess [] (rev (t :: selected s)) = true).
       { simpl. rewrite balance_walkb_app, Hbal, <- Hcons. simpl. rewrite andb_true_r.
         unfold fee_exceeds in Efee. apply Z.ltb_ge in Efee. apply Z.leb_le. exact Efee. }
-      destruct (advance c (Some (nonce t))) as [c'|] eqn:Eadv; inversion Hstep; subst s'; clear Hstep; unfold Inv; simpl.
+      destruct (advance c (Some (nonce t))) as [c'|] eqn:Eadv; inversion Hstep; subst s'; clear Hstep; unfold SelInv; simpl.
       + destruct (advance_ok (t :: selected s) c (Some (nonce t)) c' Hs Hrest Hlt Hsorted Hlat' Eadv) as (Hok & Hso & Hcs & Htx).
         split; [exact Hrun'|]. split.
         { intros c0 [<-|H]; [split; assumption|]. apply Hoth; assumption. }
@@ -328,7 +328,7 @@ Section Proofs.
         rewrite Hall, (advance_none _ _ Eadv). apply (P_sel_adv _ []).
   Qed.
 
-  Lemma loop_inv fuel s : Inv s -> Inv (loop sess gasRequested maxNum pick fuel s).
+  Lemma loop_inv fuel s : SelInv s -> SelInv (loop sess gasRequested maxNum pick fuel s).
   Proof.
     revert s; induction fuel as [|f IH]; intros s H; simpl; [exact H|].
     destruct (step sess gasRequested maxNum pick f s) as [s'|] eqn:E; [|exact H].
@@ -363,9 +363,9 @@ Proof.
 Qed.
 
 Lemma init_inv sess gasRequested maxNum bs :
-  bunches_ok bs -> Inv sess gasRequested maxNum (concat bs) (init_st bs).
+  bunches_ok bs -> SelInv sess gasRequested maxNum (concat bs) (init_st bs).
 Proof.
-  intros (Hall & Hnd). unfold Inv, init_st; simpl.
+  intros (Hall & Hnd). unfold SelInv, init_st; simpl.
   split; [intros a; constructor|]. split.
   { intros c Hc. destruct (mk_cursors_in _ _ Hc) as (t & r & Hin & ->).
     rewrite Forall_forall in Hall. destruct (Hall _ Hin) as (H64 & Hsame & Hsort).
@@ -391,7 +391,7 @@ Section Final.
   Let final := loop sess gasRequested maxNum pick fuel (init_st bs).
   Let result := rev (selected final).
 
-  Lemma final_inv : Inv sess gasRequested maxNum (concat bs) final.
+  Lemma final_inv : SelInv sess gasRequested maxNum (concat bs) final.
   Proof. apply loop_inv. apply init_inv. exact Hok. Qed.
 
   Lemma env_C01_run : forall a, run_from (sess_nonce sess a) (map nonce (of_sender a result)).
